@@ -1,5 +1,7 @@
 import BSModel.Driver.Util
+import BSModel.Driver.C01
 import BSModel.Model.Text
+import BSModel.Model.TextHeap
 import BSModel.Gen.Text
 /-! line protocol of C13 (text extraction)
 
@@ -8,22 +10,28 @@ import BSModel.Gen.Text
     c13 sc <elementClasses> <containers> <top|N> <base|N>     BeautifulSoup.string_container
     c13 interesting <containers> <name>                        Tag.__init__'s interesting_string_types
     c13 strip <cps>
+    c13 heap <mode> <kinds> <ops|-> <cls> <interesting> <nq> <query>*nq
+        the pointer heap of Model/Heap.lean after the edit history `ops` (protocol of Driver/C01.lean) on fresh objects
+        of the given kinds; cls = class code per initial id ('.'-separated; strings the library allocates are
+        NavigableString, or Comment for a preformatted `.string=`); interesting = per id, ';'-separated, `_` = main content
+        classes; mode `heap` = `allStringsHeap`/`getTextHeap`/`stringPropHeap` (pointer chase), mode `tree` = the tree-level
+        code-mirror on `toNode`; a query's receiver is a C01 label (`t3`, `s7`)
 
     tree   := S <cls> <cps> | T <name> <interesting> <nkids> tree*nkids
     query  := <path>/<op>[/<arg>…]   path = r | i.j.k   (child indices from the root)
               A/<strip>/<types>  G/<strip>/<types>/<sep>  ST  SS  TX  SP
     types  := d | n | o<cls> | m<cls.cls…> | m-
-    cls    := index into the generated `knownStringClasses`, or 100+k for `.other k` -/
+    cls    := index into the generated `c13KnownStringClasses`, or 100+k for `.other k` -/
 namespace BS.Drv.C13
 open BS.Text BS.Drv
 
 def clsOf (n : Nat) : StrClass :=
-  if n ≥ 100 then .other (n - 100) else BS.Gen.knownStringClasses.getD n (.other 99999)
+  if n ≥ 100 then .other (n - 100) else BS.Gen.c13KnownStringClasses.getD n (.other 99999)
 
 def codeOf (c : StrClass) : Nat :=
   match c with
   | .other k => 100 + k
-  | c => BS.Gen.knownStringClasses.idxOf c
+  | c => BS.Gen.c13KnownStringClasses.idxOf c
 
 def parseCls (s : String) : StrClass := clsOf s.toNat!
 
@@ -34,6 +42,14 @@ def parseTypes (s : String) : TypesArg :=
   else if s == "n" then .none
   else if s.startsWith "o" then .one (parseCls (s.drop 1).toString)
   else .many (parseClsList (s.drop 1).toString)
+
+/-- strip as passed: `0`/`1` bool, `i<n>` int, `n` None, `s<cps|->` str -/
+def parseStrip (s : String) : PyArg :=
+  if s == "1" then .bool true
+  else if s == "0" then .bool false
+  else if s == "n" then .none
+  else if s.startsWith "i" then .int ((s.drop 1).toString.toInt?.getD 0)
+  else .str (cps (s.drop 1).toString)
 
 def parseInteresting (s : String) : Interesting :=
   if s == "N" then .none
@@ -71,7 +87,7 @@ def nodeAt : Node → List Nat → Option Node
 def showP (s : PStr) : String := if s.isEmpty then "e" else showCps s
 def showPieces (l : List PStr) : String := "[" ++ ";".intercalate (l.map showP) ++ "]"
 
-def main := BS.Gen.mainContentStringTypes
+def main := BS.Gen.c13MainContentStringTypes
 
 /-- the recursive evaluator's answer to an `_all_strings` query -/
 def specAll (strp : Bool) (types : TypesArg) : Node → List PStr
@@ -90,10 +106,13 @@ def answer (spec : Bool) (root : Node) (q : String) : String :=
     | some n =>
       match op, args with
       | "A", [s, t] =>
-        showPieces (if spec then specAll (s == "1") (parseTypes t) n else allStringsImpl main (s == "1") (parseTypes t) n)
+        if t.startsWith "i" then showPieces (allStringsIterImpl (parseStrip s).truthy (parseClsList (t.drop 1).toString) n)
+        else showPieces (if spec then specAll (parseStrip s).truthy (parseTypes t) n else allStringsArg main (parseStrip s) (parseTypes t) n)
       | "G", [s, t, sep] =>
-        showP (if spec then joinSpec (cps sep) (specAll (s == "1") (parseTypes t) n)
-               else getTextImpl main (cps sep) (s == "1") (parseTypes t) n)
+        if t.startsWith "i" then
+          showP (joinImpl (cps sep) (allStringsIterImpl (parseStrip s).truthy (parseClsList (t.drop 1).toString) n))
+        else showP (if spec then joinSpec (cps sep) (specAll (parseStrip s).truthy (parseTypes t) n)
+               else getTextImpl main (cps sep) (parseStrip s).truthy (parseTypes t) n)
       | "ST", [] => showPieces (if spec then specAll false .dflt n else stringsImpl main n)
       | "SS", [] => showPieces (if spec then specAll true .dflt n else strippedStringsImpl main n)
       | "TX", [] => showP (if spec then joinSpec [] (specAll false .dflt n) else textImpl main n)
@@ -129,7 +148,106 @@ def showInteresting : Interesting → String
   | .one c => s!"o{codeOf c}"
   | .many cs => "m" ++ (if cs.isEmpty then "-" else ".".intercalate (cs.map (fun c => toString (codeOf c))))
 
+/-! ### the pointer heap -/
+open BS.Heap in
+def runHist : Heap → List String → Option Heap
+  | h, [] => some h
+  | h, o :: os =>
+    match BS.Drv.C01.parseOp h o with
+    | none => none
+    | some op =>
+      match step h op with
+      | .error _ => none
+      | .ok h1 => runHist h1 os
+
+open BS.Heap in
+def heapLabels (n : Nat) (cls : List Nat) (ints : List String) (h : Heap) : Labels :=
+  { cls := fun i =>
+      if i < n then clsOf (cls.getD i 0)
+      else if h.kind i = .pre then .comment else .navigableString,
+    interesting := fun i =>
+      match ints[i]? with
+      | some s => if s == "_" then .many main else parseInteresting s
+      | none => .many main,
+    name := fun i => [i] }
+
+open BS.Heap in
+def answerHeap (tree : Bool) (h : Heap) (L : Labels) (q : String) : String :=
+  match q.splitOn "/" with
+  | lab :: op :: args =>
+    match BS.Drv.C01.resolve h lab with
+    | none => "bad-label"
+    | some x =>
+      let all := fun (s : Bool) (t : TypesArg) =>
+        if tree then Except.ok (allStringsImpl main s t (toNode h L h.cap x)) else allStringsHeap main h L s t x
+      let showA := fun (r : Except Err (List PStr)) => match r with | .ok l => showPieces l | .error _ => "crash"
+      match op, args with
+      | "A", [s, t] => showA (all (s == "1") (parseTypes t))
+      | "ST", [] => showA (all false .dflt)
+      | "SS", [] => showA (all true .dflt)
+      | "G", [s, t, sep] =>
+        if tree then showP (getTextImpl main (cps sep) (s == "1") (parseTypes t) (toNode h L h.cap x))
+        else match getTextHeap main h L (cps sep) (s == "1") (parseTypes t) x with
+          | .ok r => showP r
+          | .error _ => "crash"
+      | "TX", [] =>
+        if tree then showP (textImpl main (toNode h L h.cap x))
+        else match getTextHeap main h L [] false .dflt x with
+          | .ok r => showP r
+          | .error _ => "crash"
+      | "SP", [] =>
+        if tree then
+          match stringProp (toNode h L h.cap x) with
+          | none => "none"
+          | some (c, v) => s!"{codeOf c}:{showP v}"
+        else
+          match stringPropHeap h h.cap x with
+          | none => "none"
+          | some sId => s!"{codeOf (L.cls sId)}:{showP (h.val sId)}@{BS.Drv.C01.label h sId}"
+      | _, _ => "bad-query"
+  | _ => "bad-query"
+
+def handleHeap (mode kinds ops cls ints nq : String) (qs : List String) : String :=
+  let h0 := BS.Drv.C01.initHeap kinds
+  match runHist h0 (splitNE ";" ops) with
+  | none => "bad-history"
+  | some h =>
+    let L := heapLabels kinds.length (natList "." cls) (ints.splitOn ";") h
+    " | ".intercalate ((qs.take nq.toNat!).map (answerHeap (mode == "tree") h L))
+
+def showContainers (l : List (PStr × StrClass)) : String :=
+  if l.isEmpty then "-" else ";".intercalate (l.map fun p => s!"{showL p.1}:{codeOf p.2}")
+
+def parseSCArg (s : String) : SCArg :=
+  if s == "U" then .useDefault
+  else if s == "N" then .none
+  else .dict (parseContainers (s.drop 2).toString)      -- `D:<containers>`
+
+def parseBuilder (s : String) : Option (Option (List (PStr × StrClass))) :=
+  if s == "N" then none
+  else if s == "BN" then some none
+  else some (some (parseContainers (s.drop 2).toString))   -- `B:<containers>`
+
+def showInit : InitResult → String
+  | .ok i => "ok " ++ showInteresting i
+  | .typeError => "TypeError"
+
 def handle : List String → String
+  | ["scarg", dflt, arg] =>
+    match builderStringContainers (parseContainers dflt) (parseSCArg arg) with
+    | none => "none"
+    | some l => "some " ++ showContainers l
+  | ["taginit", b, nm, param] => showInit (tagInitInteresting main (parseBuilder b) (cps nm) (parseInteresting param))
+  | ["newtag", b, nm] =>
+    (match parseBuilder b with
+     | some sc => showInit (newTagInteresting main sc (cps nm))
+     | none => "bad-op")
+  | ["copyself", nm, param] => showInit (copySelfInteresting main (cps nm) (parseInteresting param))
+  | ["cstack", cont, names] =>
+    let c := parseContainers cont
+    let top := containerStackTop c ((splitNE ";" names).map cps)
+    s!"{match top with | none => "N" | some n => showL n} {codeOf (stringContainer [] c top none)}"
+  | "heap" :: mode :: kinds :: ops :: cls :: ints :: nq :: qs => handleHeap mode kinds ops cls ints nq qs
   | "run" :: nq :: rest => runQueries false nq rest
   | "spec" :: nq :: rest => runQueries true nq rest
   | ["sc", ec, cont, top, base] =>
